@@ -109,7 +109,8 @@ def check_C01(chk):
             cases.append({"id": next(nid), "len": L, "level": "bytes"})
         for L in lens[::7]:
             k = next(nid)
-            cases.append({"id": k, "len": L, "nsend": k % 2, "nrecv": k % 3 == 0 and 1 or 0, "nshm": k % 2, "level": "typed"})
+            # every second typed message follows, on the same thread, a send whose serialisation failed half-way
+            cases.append({"id": k, "len": L, "nsend": k % 2, "nrecv": k % 3 == 0 and 1 or 0, "nshm": k % 2, "level": "typed", "prefail": (k // 2) % 2})
         # a few transient-refusal patterns too: "does not depend on how the transport happens to split the payload"
         for pat in ("1", "01", "001", "0101", "2", "02", "002", "012", "0102", "03", "004", "0013"):
             for L in (lens[len(lens) // 2], lens[-1], F.ffs(Sv) + 3 * F.fs(Sv) + 11):
@@ -121,7 +122,7 @@ def check_C01(chk):
     if thorough:
         big = [{"id": next(nid), "len": L, "level": lv} for L in (1 << 20, 16 << 20, 64 << 20, (64 << 20) - 17) for lv in ("platform", "bytes")]
         jobs.append((bins["default"], None, big, "default", True))
-    inproc = [{"id": next(nid), "len": L, "nsend": 1, "nrecv": 1, "nshm": 1, "level": lv}
+    inproc = [{"id": next(nid), "len": L, "nsend": 1, "nrecv": 1, "nshm": 1, "level": lv, "prefail": L % 2}
               for L in F.boundary_lengths(4096, False)[::3] + [1 << 20] for lv in ("platform", "typed", "bytes")]
     for c in inproc:
         if c["level"] == "bytes":
